@@ -338,7 +338,7 @@ Section SparseInv.
     inv_len : length (s_file s) = Lb;
     inv_done : forall i r, nth_error idx i = Some r ->
                  (nth i (s_done s) false = true \/ r_id r = nullid) -> good (s_file s) i;
-    inv_saved : s_stale s = false -> forall b, s_saved s = Some b ->
+    inv_saved : forall b, s_saved s = Some b ->
                  forall i, nth i b false = true -> good (s_file s) i;
     inv_threads : Forall (thread_ok (s_file s)) (s_threads s);
     inv_log : Forall (read_result_ok blob) (s_log s);
@@ -426,10 +426,10 @@ Section SparseInv.
         inversion Htodo as [|? ? Hi Htodo']; subst. inversion E; subst s'. clear E.
         pose proof (nth_row i Hi) as Hn.
         destruct (write_good H idx blob Hd (s_file s) i _ Il Hn) as [Hl' [Hgi Hmono]].
-        left. constructor; cbn [s_file s_done s_saved s_stale s_threads s_log set_pc upd_thread].
+        left. constructor; cbn [s_file s_done s_saved s_threads s_log set_pc upd_thread].
         -- exact Hl'.
         -- intros j r Hnj Hor. apply Hmono. exact (Id j r Hnj Hor).
-        -- intros Hst b Hb j Hj. apply Hmono. exact (Is Hst b Hb j Hj).
+        -- intros b Hb j Hj. apply Hmono. exact (Is b Hb j Hj).
         -- apply set_nth_Forall.
            ++ eapply Forall_impl; [|exact It]. intros th0. apply thread_ok_mono. exact Hmono.
            ++ unfold thread_ok. cbn [pc queue]. rewrite Eq. split; [exact Hvalid|].
@@ -439,7 +439,7 @@ Section SparseInv.
         -- exact Ig.
       + (* done.Set *)
         destruct Hp as [Hi Hgi]. inversion E; subst s'. clear E.
-        left. constructor; cbn [s_file s_done s_saved s_stale s_threads s_log set_pc upd_thread]; auto.
+        left. constructor; cbn [s_file s_done s_saved s_threads s_log set_pc upd_thread]; auto.
         -- intros j r Hnj [Hdn|Hnull]; [|apply (Id j r Hnj); right; exact Hnull].
            destruct (Nat.eq_dec j i) as [->|Hne]; [exact Hgi|].
            apply (Id j r Hnj). left. rewrite <- Hdn. symmetry. apply nth_set_nth_other. exact Hne.
@@ -447,7 +447,13 @@ Section SparseInv.
            split; [discriminate|]. split; [exact Htodo|]. split; [exact I|exact Hcov].
     - (* a goroutine picks up its next request *)
       destruct rq as [off len|i|].
-      + destruct (index_range idx off (Z.of_nat len)) as [[first last]|] eqn:Er; [|discriminate].
+      + fold n in E. destruct (n =? 0)%nat eqn:En0.
+        { (* empty blob: nothing to load *)
+          apply Nat.eqb_eq in En0. inversion E; subst s'. left. constructor; cbn; auto.
+          apply set_nth_Forall; [exact It|]. unfold thread_ok. cbn [pc queue]. rewrite Eq. split; [exact Hvalid|].
+          split; [discriminate|]. split; [constructor|]. split; [exact I|].
+          intros _ _ _ j r Hnj _. exfalso. assert (j < n)%nat by (apply nth_error_Some; congruence). lia. }
+        destruct (index_range idx off (Z.of_nat len)) as [[first last]|] eqn:Er; [|discriminate].
         pose proof (needed_spec idx nullid (s_done s) first last) as Hnd.
         destruct (needed idx nullid (s_done s) first last) as [todo|].
         * inversion E; subst s'. left. constructor; cbn; auto.
@@ -470,7 +476,7 @@ Section SparseInv.
         (* the request was validated when it was handed over *)
         constructor; [|constructor]. inversion Hvalid as [|? ? Hv _]. cbn in Hv. apply Nat.ltb_lt in Hv. exact Hv.
       + inversion E; subst s'. left. unfold finish. cbn [queue]. rewrite Eq. constructor; cbn; auto.
-        -- intros _ b Hb i Hi. inversion Hb; subst b. intros r Hn. exact (Id i r Hn (or_introl Hi) r Hn).
+        -- intros b Hb i Hi. inversion Hb; subst b. intros r Hn. exact (Id i r Hn (or_introl Hi) r Hn).
         -- apply set_nth_Forall; [exact It|apply idle_ok; exact Hvq].
   Qed.
 
@@ -504,10 +510,10 @@ Section SparseInv.
     left. intros i r Hn. apply A. eapply nth_error_In; eauto.
   Qed.
 
-  (* ---- NewSparseFile on what the previous incarnation left behind ---- *)
-  Lemma restart_inv s m : SInv s -> s_stale s && m_state m = false -> SInv (restart idx s m) \/ Collision H.
+  (* ---- NewSparseFile on what the previous incarnation left behind: every restart the code can perform ---- *)
+  Lemma restart_inv s m : SInv s -> SInv (restart idx s m) \/ Collision H.
   Proof.
-    intros [Il Id Is It Ig] Hpair.
+    intros [Il Id Is It Ig].
     destruct all_null_zero as [Hz|C]; [|right; exact C]. left.
     unfold restart. rewrite Lb_eq. fold n.
     set (cache := match m_cache m with CKeep => s_file s | CAbsent => [] | CResize k => resize (s_file s) k end).
@@ -526,33 +532,31 @@ Section SparseInv.
       unfold chunk_of in E0. rewrite nth_slice in E0 by exact Hp. exact E0. }
     destruct ((length cache =? Lb)%nat &&
               match s_saved s with Some b => m_state m && state_matches idx b | None => false end) eqn:Euse.
-    - (* the state file is loaded *)
+    - (* the state file is loaded: the cache file has the full size, so it is the file the state was saved for
+         (deleting or resizing it would have changed its size, except for the empty blob) *)
       apply andb_true_iff in Euse. destruct Euse as [El Eu]. apply Nat.eqb_eq in El.
       destruct (s_saved s) as [b|] eqn:Esaved; [|discriminate].
-      apply andb_true_iff in Eu. destruct Eu as [Em _]. rewrite Em, andb_true_r in Hpair.
       assert (Hc : cache = s_file s \/ Lb = 0%nat).
       { unfold cache in *. destruct (m_cache m) as [| |k]; [left; reflexivity|right; cbn in El; lia|].
         left. rewrite resize_length in El. subst k. apply resize_same. exact Il. }
-      constructor; cbn [s_file s_done s_saved s_stale s_threads s_log].
+      assert (Hb : forall i, nth i b false = true -> good cache i).
+      { intros i Hi. destruct Hc as [->|H0]; [exact (Is b eq_refl i Hi)|intros r Hn; exfalso; exact (no_rows H0 i r Hn)]. }
+      constructor; cbn [s_file s_done s_saved s_threads s_log].
       + exact El.
-      + intros i r Hn [Hb|Hid].
-        * destruct Hc as [->|H0]; [exact (Is Hpair b eq_refl i Hb)|exfalso; exact (no_rows H0 i r Hn)].
-        * apply (Hnull cache El Hcache i r Hn Hid).
-      + intros Hst b' Hb' i Hi. inversion Hb'; subst b'. apply orb_false_iff in Hst. destruct Hst as [_ Hlost].
-        destruct (m_cache m) eqn:Emc; try discriminate. unfold cache. exact (Is Hpair b eq_refl i Hi).
+      + intros i r Hn [Hi|Hid]; [exact (Hb i Hi)|apply (Hnull cache El Hcache i r Hn Hid)].
+      + intros b' Hb' i Hi. inversion Hb'; subst b'. exact (Hb i Hi).
       + constructor.
       + exact Ig.
-    - (* the state file is not used: every chunk counts as not loaded, the file is brought to full size *)
+    - (* the state file is not used: every chunk counts as not loaded, the file is brought to full size, and the
+         state file is replaced by the blank state *)
       assert (Hl' : length (resize cache Lb) = Lb) by apply resize_length.
       assert (Hq' : forall q, nth q (resize cache Lb) 0%N = 0%N \/ nth q (resize cache Lb) 0%N = nth q (s_file s) 0%N).
       { intros q. rewrite nth_resize. destruct (q <? Lb)%nat; [apply Hcache|left; reflexivity]. }
-      constructor; cbn [s_file s_done s_saved s_stale s_threads s_log].
+      constructor; cbn [s_file s_done s_saved s_threads s_log].
       + exact Hl'.
       + intros i r Hn [Hb|Hid]; [rewrite nth_repeat_false in Hb; discriminate|].
         apply (Hnull _ Hl' Hq' i r Hn Hid).
-      + intros Hst b Hb i Hi. rewrite Hb in Hst. apply orb_false_iff in Hst. destruct Hst as [Hst Hlost].
-        destruct (m_cache m) eqn:Emc; try discriminate. unfold cache. rewrite (resize_same _ _ Il).
-        exact (Is Hst b Hb i Hi).
+      + intros b Hb i Hi. inversion Hb; subst b. rewrite nth_repeat_false in Hi. discriminate.
       + destruct (s_saved s) as [b|]; [|constructor].
         destruct (m_preload m && m_state m && state_matches idx b); [|constructor].
         apply Forall_forall. intros th Hin. apply in_map_iff in Hin. destruct Hin as [i [<- Hi]].
@@ -564,19 +568,19 @@ Section SparseInv.
   Lemma init_inv : SInv (init idx) \/ Collision H.
   Proof.
     destruct all_null_zero as [Hz|C]; [|right; exact C]. left.
-    unfold init. rewrite Lb_eq. constructor; cbn [s_file s_done s_saved s_stale s_threads s_log].
+    unfold init. rewrite Lb_eq. constructor; cbn [s_file s_done s_saved s_threads s_log].
     - apply repeat_length.
     - intros i r Hn [Hb|Hid]; [rewrite nth_repeat_false in Hb; discriminate|].
       apply (zero_good H idx blob Hd _ i r (repeat_length _ _) Hn (Hz i r Hn Hid)). intros p _. apply nth_repeat0.
-    - intros _ b Hb. discriminate.
+    - intros b Hb i Hi. inversion Hb; subst b. rewrite nth_repeat_false in Hi. discriminate.
     - constructor.
     - constructor.
   Qed.
 
   (* ---- every label ---- *)
-  Lemma step_inv s l s' : SInv s -> step_paired idx nullid store s l = Some s' -> SInv s' \/ Collision H.
+  Lemma step_inv s l s' : SInv s -> step idx nullid store s l = Some s' -> SInv s' \/ Collision H.
   Proof.
-    intros Hinv E. unfold step_paired in E. destruct (stale_load s l) eqn:Esl; [discriminate|].
+    intros Hinv E.
     destruct l as [k|k rq|m]; cbn [step] in E.
     - destruct (s_crashed s); [discriminate|]. exact (tstep_inv s k s' Hinv E).
     - destruct (s_crashed s || negb (valid_request idx rq)) eqn:Ev; [discriminate|].
@@ -590,7 +594,7 @@ Section SparseInv.
         split; [intro E0; apply app_eq_nil in E0; destruct E0 as [_ E0]; discriminate|]. split; [exact B|]. split; [exact C|].
         destruct (queue th) as [|rq0 q0]; [contradiction|exact D].
       + apply Forall_app. split; [exact It|]. constructor; [|constructor]. apply idle_ok. constructor; [exact Ev|constructor].
-    - inversion E; subst s'. apply restart_inv; [exact Hinv|exact Esl].
+    - inversion E; subst s'. apply restart_inv. exact Hinv.
   Qed.
 End SparseInv.
 
@@ -599,24 +603,24 @@ End SparseInv.
 Theorem sparse_inv H idx blob maxsz store sched :
   index_describes H idx blob -> store_sound H store ->
   let nullid := snd (new_null_chunk H maxsz) in
-  loader_inv idx nullid blob (run (step_paired idx nullid store) sched (init idx)) \/ Collision H.
+  loader_inv idx nullid blob (run (step idx nullid store) sched (init idx)) \/ Collision H.
 Proof.
   intros Hd Hs nullid.
   pose (Inv := fun s => SInv H idx blob maxsz s \/ Collision H).
-  assert (Hrun : Inv (run (step_paired idx nullid store) sched (init idx))).
-  { apply (inv_run (step_paired idx nullid store) Inv).
+  assert (Hrun : Inv (run (step idx nullid store) sched (init idx))).
+  { apply (inv_run (step idx nullid store) Inv).
     - intros s l s' [Hi|C] E; [|right; exact C]. exact (step_inv H idx blob Hd maxsz store Hs s l s' Hi E).
     - exact (init_inv H idx blob Hd maxsz). }
   destruct Hrun as [[Il Id Is _ Ig]|C]; [left|right; exact C]. constructor; assumption.
 Qed.
 
 (* Every ReadAt that reported success -- under any interleaving of any number of readers, preload workers and
-   WriteState calls, any store faults, any sequence of restarts (kills included) that use the state file only
-   with the cache file it was saved for -- returned exactly blob[off, off+n), n = min(len, L-off). *)
+   WriteState calls, any store faults, any sequence of restarts the code can perform (kills of the running process
+   included) -- returned exactly blob[off, off+n), n = min(len, L-off). *)
 Theorem sparse_read_sound H idx blob maxsz store sched off len d eof :
   index_describes H idx blob -> store_sound H store ->
   let nullid := snd (new_null_chunk H maxsz) in
-  In (RqRead off len, ROk d eof) (s_log (run (step_paired idx nullid store) sched (init idx))) ->
+  In (RqRead off len, ROk d eof) (s_log (run (step idx nullid store) sched (init idx))) ->
   off + Z.of_nat len < two64 ->
   (0 <= off /\ d = slice blob (Z.to_nat off) (length d) /\
    length d = Nat.min len (length blob - Z.to_nat off) /\ eof = (length d <? len)%nat) \/ Collision H.
@@ -654,20 +658,22 @@ Proof.
   destruct (e <? Z.of_N (r_start r)); [lia|]. specialize (IH (base + 1)). lia.
 Qed.
 
-Lemma index_range_bounds idx off len : tiles_from 0 idx -> idx <> [] -> (1 <= len)%nat ->
-  exists first last, index_range idx off (Z.of_nat len) = Some (first, last) /\
+Lemma index_range_bounds idx off len : tiles_from 0 idx -> idx <> [] ->
+  exists first last, index_range idx off len = Some (first, last) /\
                      0 <= first <= last /\ last < Z.of_nat (length idx).
 Proof.
-  intros Ht Hne Hlen. unfold index_range.
+  intros Ht Hne. unfold index_range.
   destruct (go_search_least (length idx) _ (search_pred_mono idx Ht off)) as [f [Es [Hf _]]].
-  rewrite Es. replace (Z.of_nat len <? 1) with false by (symmetry; apply Z.ltb_ge; lia).
+  rewrite Es.
   assert (0 < length idx)%nat by (destruct idx; [congruence|cbn; lia]).
   destruct (length idx <=? f)%nat eqn:Ef.
   - eexists _, _. split; [reflexivity|]. lia.
-  - apply Nat.leb_gt in Ef. eexists _, _. split; [reflexivity|].
-    pose proof (scan_last_ge_base (skipn (S f) idx) ((off + Z.of_nat len - 1) mod two64) (Z.of_nat f)).
-    pose proof (scan_last_le (skipn (S f) idx) ((off + Z.of_nat len - 1) mod two64) (Z.of_nat f)) as Hle.
-    rewrite skipn_length in Hle. lia.
+  - apply Nat.leb_gt in Ef. destruct (len <? 1).
+    + eexists _, _. split; [reflexivity|]. lia.
+    + eexists _, _. split; [reflexivity|].
+      pose proof (scan_last_ge_base (skipn (S f) idx) ((off + len - 1) mod two64) (Z.of_nat f)).
+      pose proof (scan_last_le (skipn (S f) idx) ((off + len - 1) mod two64) (Z.of_nat f)) as Hle.
+      rewrite skipn_length in Hle. lia.
 Qed.
 
 Section NoPanic.
@@ -675,77 +681,52 @@ Section NoPanic.
   Variable nullid : id.
   Variable store : store_t.
   Hypothesis Ht : tiles_from 0 idx.
-  Hypothesis Hne : idx <> [].
 
-  Definition nz_request (rq : request) : Prop := match rq with RqRead _ len => (1 <= len)%nat | _ => True end.
-  Definition nz_state (s : sstate) : Prop :=
-    s_crashed s = false /\ Forall (fun th => Forall nz_request (queue th)) (s_threads s).
-
-  Lemma nz_set_nth s k th q p : nz_state s -> nth_error (s_threads s) k = Some th -> Forall nz_request q ->
-    Forall (fun th => Forall nz_request (queue th)) (set_nth (s_threads s) k (mkthread q p)).
-  Proof. intros [_ Hf] _ Hq. apply set_nth_Forall; [exact Hf|exact Hq]. Qed.
-
-  Lemma nz_step s l s' : nz_state s -> step_nonzero idx nullid store s l = Some s' -> nz_state s'.
+  Lemma tstep_no_panic s k s' : s_crashed s = false -> tstep idx nullid store s k = Some s' -> s_crashed s' = false.
   Proof.
-    intros Hnz E. unfold step_nonzero in E. destruct (label_nonzero l) eqn:El; [|discriminate].
-    destruct l as [k|k rq|m]; cbn [step] in E.
-    - destruct Hnz as [Hc Hf]. rewrite Hc in E. unfold tstep in E.
-      destruct (nth_error (s_threads s) k) as [th|] eqn:Ek; [|discriminate].
-      assert (Hq : Forall nz_request (queue th)) by (rewrite Forall_forall in Hf; apply (Hf th); eapply nth_error_In; eauto).
-      destruct (queue th) as [|rq q] eqn:Eq.
-      { destruct (pc th) as [[[|? ?]|? ?|? ? ?|? ?]|]; discriminate. }
-      assert (Hq' : Forall nz_request q) by (inversion Hq; assumption).
-      assert (Hfin : forall r, nz_state (finish s k th r)).
-      { intros r. unfold finish. rewrite Eq. split; [exact Hc|]. cbn. apply set_nth_Forall; [exact Hf|exact Hq']. }
-      assert (Hset : forall s0 p, s_crashed s0 = false -> s_threads s0 = s_threads s -> nz_state (set_pc s0 k th p)).
-      { intros s0 p Hc0 Ht0. split; [exact Hc0|]. cbn. unfold upd_thread. rewrite Ht0. apply set_nth_Forall; [exact Hf|].
-        cbn. rewrite Eq. exact Hq. }
-      destruct (pc th) as [[[|i todo]|i todo|i d todo|i todo]|] eqn:Epc.
-      + destruct rq; inversion E; subst s'; apply Hfin.
-      + destruct (nth i (s_mutex s) true); [discriminate|]. destruct (nth i (s_done s) false); inversion E; subst s'; apply Hset; auto.
-      + destruct (store (s_calls s) (r_id (nth i idx row0))) as [d|c].
-        * destruct (length d =? 0)%nat; inversion E; subst s'.
-          -- unfold finish. rewrite Eq. split; [exact Hc|]. cbn. apply set_nth_Forall; [exact Hf|exact Hq'].
-          -- apply Hset; auto.
-        * inversion E; subst s'. unfold finish. rewrite Eq. split; [exact Hc|]. cbn. apply set_nth_Forall; [exact Hf|exact Hq'].
-      + inversion E; subst s'. apply Hset; auto.
-      + inversion E; subst s'. apply Hset; auto.
-      + destruct rq as [off len|i|].
-        * inversion Hq as [|? ? Hlen _]; subst. cbn in Hlen.
-          destruct (index_range_bounds idx off len Ht Hne Hlen) as [first [last [Er [Hb1 Hb2]]]].
-          rewrite Er in E. pose proof (needed_spec idx nullid (s_done s) first last) as Hnd.
-          destruct (needed idx nullid (s_done s) first last) as [todo|]; [|lia].
-          inversion E; subst s'. apply Hset; auto.
-        * inversion E; subst s'. apply Hset; auto.
-        * inversion E; subst s'. unfold finish. cbn [queue]. rewrite Eq. split; [exact Hc|]. cbn.
-          apply set_nth_Forall; [exact Hf|exact Hq'].
-    - destruct Hnz as [Hc Hf]. rewrite Hc in E. cbn [orb] in E. destruct (negb (valid_request idx rq)); [discriminate|].
-      assert (Hrq : nz_request rq) by (destruct rq; cbn in *; auto; apply Nat.leb_le; exact El).
-      destruct (nth_error (s_threads s) k) as [th|] eqn:Ek; inversion E; subst s'; split; auto; cbn.
-      + apply set_nth_Forall; [exact Hf|]. cbn. apply Forall_app. split; [|constructor; [exact Hrq|constructor]].
-        rewrite Forall_forall in Hf. apply (Hf th). eapply nth_error_In; eauto.
-      + apply Forall_app. split; [exact Hf|]. constructor; [|constructor]. cbn. constructor; [exact Hrq|constructor].
+    intros Hc E. unfold tstep in E.
+    destruct (nth_error (s_threads s) k) as [th|]; [|discriminate].
+    destruct (queue th) as [|rq q] eqn:Eq.
+    { destruct (pc th) as [[[|? ?]|? ?|? ? ?|? ?]|]; discriminate. }
+    destruct (pc th) as [[[|i todo]|i todo|i d todo|i todo]|].
+    - destruct rq; inversion E; subst s'; unfold finish; rewrite Eq; exact Hc.
+    - destruct (nth i (s_mutex s) true); [discriminate|]. destruct (nth i (s_done s) false); inversion E; subst s'; exact Hc.
+    - destruct (store (s_calls s) (r_id (nth i idx row0))) as [d|c].
+      + destruct (length d =? 0)%nat; inversion E; subst s'; [unfold finish; rewrite Eq|]; exact Hc.
+      + inversion E; subst s'. unfold finish. rewrite Eq. exact Hc.
+    - inversion E; subst s'. exact Hc.
+    - inversion E; subst s'. exact Hc.
+    - destruct rq as [off len|i|].
+      + destruct (length idx =? 0)%nat eqn:En0; [inversion E; subst s'; exact Hc|].
+        apply Nat.eqb_neq in En0. assert (Hne : idx <> []) by (intros ->; apply En0; reflexivity).
+        destruct (index_range_bounds idx off (Z.of_nat len) Ht Hne) as [first [last [Er [Hb1 Hb2]]]].
+        rewrite Er in E. pose proof (needed_spec idx nullid (s_done s) first last) as Hnd.
+        destruct (needed idx nullid (s_done s) first last) as [todo|]; [|lia].
+        inversion E; subst s'. exact Hc.
+      + inversion E; subst s'. exact Hc.
+      + inversion E; subst s'. unfold finish. cbn [queue]. rewrite Eq. exact Hc.
+  Qed.
+
+  Lemma step_no_panic s l s' : s_crashed s = false -> step idx nullid store s l = Some s' -> s_crashed s' = false.
+  Proof.
+    intros Hc E. destruct l as [k|k rq|m]; cbn [step] in E.
+    - rewrite Hc in E. exact (tstep_no_panic s k s' Hc E).
+    - destruct (s_crashed s || negb (valid_request idx rq)); [discriminate|].
+      destruct (nth_error (s_threads s) k); inversion E; subst s'; exact Hc.
     - inversion E; subst s'. unfold restart.
-      match goal with |- context [if ?c then _ else _] => destruct c end.
-      + split; [reflexivity|constructor].
-      + split; [reflexivity|]. cbn. destruct (s_saved s) as [b|]; [|constructor].
-        destruct (m_preload m && m_state m && state_matches idx b); [|constructor].
-        apply Forall_forall. intros th Hin. apply in_map_iff in Hin. destruct Hin as [i [<- _]]. cbn.
-        constructor; [exact I|constructor].
+      match goal with |- context [if ?c then _ else _] => destruct c end; reflexivity.
   Qed.
 End NoPanic.
 
-(* With at least one chunk in the index and no zero-length ReadAt, no goroutine ever indexes out of range. *)
+(* No goroutine ever indexes out of range: for every index (the empty one included), every request (empty buffers,
+   offsets at, past or before the ends included), every schedule, store and restart sequence. *)
 Theorem sparse_no_panic idx nullid store sched :
-  tiles_from 0 idx -> idx <> [] ->
-  s_crashed (run (step_nonzero idx nullid store) sched (init idx)) = false.
+  tiles_from 0 idx ->
+  s_crashed (run (step idx nullid store) sched (init idx)) = false.
 Proof.
-  intros Ht Hne.
-  assert (Hr : nz_state (run (step_nonzero idx nullid store) sched (init idx))).
-  { apply (inv_run (step_nonzero idx nullid store) nz_state).
-    - intros s l s'. apply nz_step; assumption.
-    - split; [reflexivity|constructor]. }
-  exact (proj1 Hr).
+  intros Ht.
+  apply (inv_run (step idx nullid store) (fun s => s_crashed s = false)); [|reflexivity].
+  intros s l s'. apply step_no_panic. exact Ht.
 Qed.
 
 (* ---------- sparse_retry: success is always backed by a successful fetch ---------- *)
@@ -855,7 +836,11 @@ Section Retry.
           apply nth_set_nth_other. exact Hne.
         * apply set_nth_Forall; [exact Rt|]. unfold thread_r. cbn [pc queue]. rewrite Eq. split; [discriminate|]. split; [exact I|exact Hcov].
     - destruct rq as [off len|i|].
-      + destruct (index_range idx off (Z.of_nat len)) as [[first last]|] eqn:Er; [|discriminate].
+      + destruct (length idx =? 0)%nat eqn:En0.
+        { apply Nat.eqb_eq in En0. inversion E; subst s'. constructor; cbn; auto.
+          apply set_nth_Forall; [exact Rt|]. unfold thread_r. cbn [pc queue]. rewrite Eq. split; [discriminate|]. split; [exact I|].
+          intros _ _ _ j r Hnj _. exfalso. assert (j < length idx)%nat by (apply nth_error_Some; congruence). lia. }
+        destruct (index_range idx off (Z.of_nat len)) as [[first last]|] eqn:Er; [|discriminate].
         pose proof (needed_spec idx nullid (s_done s) first last) as Hnd.
         destruct (needed idx nullid (s_done s) first last) as [todo|]; inversion E; subst s'; constructor; cbn; auto.
         apply set_nth_Forall; [exact Rt|]. unfold thread_r. cbn [pc queue]. rewrite Eq. split; [discriminate|]. split; [exact I|].
@@ -893,6 +878,7 @@ Section Retry.
         intros i Hi. exact (Rs b eq_refl i Hi).
       + constructor; cbn; auto.
         * intros i Hi. rewrite nth_repeat_false in Hi. discriminate.
+        * intros b Hb i Hi. inversion Hb; subst b. rewrite nth_repeat_false in Hi. discriminate.
         * destruct (s_saved s) as [b|]; [|constructor].
           destruct (m_preload m && m_state m && state_matches idx b); [|constructor].
           apply Forall_forall. intros th Hin. apply in_map_iff in Hin. destruct Hin as [i [<- _]]. exact I.
@@ -917,7 +903,7 @@ Proof.
     - intros s0 l s1. apply rstep. exact Ht.
     - constructor; cbn.
       + intros i Hi. rewrite nth_repeat_false in Hi. discriminate.
-      + intros b Hb. discriminate.
+      + intros b Hb i Hi. inversion Hb; subst b. rewrite nth_repeat_false in Hi. discriminate.
       + constructor.
       + constructor. }
   destruct Hr as [_ _ _ Rl]. rewrite Forall_forall in Rl. specialize (Rl _ Hin). cbn in Rl.
